@@ -25,6 +25,7 @@ from eliot._action import TooManyCalls
 from eliot.parse import Parser
 
 ID = "C06"
+CASE_TIMEOUT = 3600  # one case is a whole schedule exploration
 LEVEL = "model_checking"
 SHARDS = 8
 
